@@ -93,6 +93,11 @@ check("C19", "model_checking",
       "The observable half of C19 is decided at ReadBlock/API-call granularity; 'no data race in the Go memory model' for writes invisible in the object graph is outside a cooperative scheduler (brief: hand-offs are happens-before edges). If the package imports sync or sync/atomic the frozen-state invariant is switched off (mutation may then be legitimate) and the evidence says so.",
       "stateless DFS over all goroutine interleavings of the real readers + frozen-state invariant; race detector as labelled supplement", "DESIGN.md 6/C19", "sharedread")
 
+check("C15", "translation_validation",
+      "Each program is one table of families F1 (strided), F2, F3, F4 x write configurations both implementations support, written once by the Go writer and once by the C writer (cdriver/driver.c linked against /repo/c, compiled by the check from the current working tree), or one stack history of <=3 transactions executed by Go, by C, or alternating, with an optional final CompactAll by either. Every program is then read by BOTH implementations - full ref and log scans, SeekRef around the first/middle/last key, SeekLog at several indices, RefsFor for every object id class - and the two dumps must be byte-identical; a crash of the C process is attributed to the input and reported.",
+      "The C side of the line protocol (cdriver/driver.c, ~500 lines) and gcc + system zlib are trusted. Restricted to options both implementations expose and NUL-free strings; error statuses compared as succeed/fail. Agreement of the two implementations is not evidence of correctness (C14's independent decoder is); it is what C15 states.",
+      "differential execution of every enumerated table/stack history on both implementations (exhaustive over the enumerated programs)", "DESIGN.md 6/C15, Appendix C", "cdiff")
+
 ALL = [f"C{n:02d}" for n in range(1, 20)]
 NOT_YET = "check not built yet in this working session (design in DESIGN.md section 6); will be claimed once it runs"
 
@@ -119,6 +124,8 @@ manifest = {
          "kind_free_text": "deviation-bounded corruption enumeration over a corpus of writer-produced tables; workers under ulimit -v with per-mutant markers"},
         {"name": "sharedread", "path": "harness/sharedread", "serves_properties": ["C19"],
          "kind_free_text": "engine E1 scheduler over goroutines sharing a Reader/Merged; scheduling points at API calls and ReadBlock; deep-hash frozen-state invariant; -race build for the supplementary pass"},
+        {"name": "cdiff", "path": "harness/cdiff", "serves_properties": ["C15"],
+         "kind_free_text": "Go harness + persistent C driver process (cdriver/driver.c linked against /repo/c) over real files in a scratch directory"},
         {"name": "crashseq", "path": "harness/crashseq", "serves_properties": ["C06"],
          "kind_free_text": "engine E1 in sequential mode: every filesystem-call boundary of a call is a crash point; survivor program on the real code"},
     ],
